@@ -86,10 +86,10 @@ def gen_arrays(rng, nprng, count):
     return out
 
 
-def real_fit(fam, X):
+def real_fit(fam, X, errstate=None):
     c = B.cls_of(fam)()
     try:
-        with np.errstate(all='ignore'):
+        with np.errstate(**(errstate or {'all': 'ignore'})):
             c.fit(X)
         res = 'ok'
     except Exception as e:  # noqa
@@ -238,6 +238,15 @@ def search(ctx, deep):
                 continue
             if tau != tau:
                 continue
+            if (abs(tau) >= 1 - 1e-9 or checked % 5 == 0) and res in ('ok', 'err ValueError'):
+                # the decision (a theta, or ValueError) is a function of the data: a caller whose process runs with
+                # numpy's divide errors raised (np.seterr(divide='raise')) gets the same one, not a third outcome
+                res2, _, th2, _, _ = real_fit(fam, X, {'divide': 'raise'})
+                same = res2 == res and (res != 'ok' or th2 == rtheta or (th2 != th2 and rtheta != rtheta))
+                if not same:
+                    bad('outcome-depends-on-ambient-numpy-error-state',
+                        {'default': [res, rtheta], "under np.errstate(divide='raise')": [res2, th2]},
+                        'fit calibrates theta or raises ValueError, whatever numpy error state the caller runs under')
             if abs(tau) >= 1 - 1e-9:
                 continue        # (numerically) monotone data: outside the property's tau in (-1,1)
             admissible = {'clayton': tau > 0, 'gumbel': tau >= 0, 'frank': tau != 0}[fam]
@@ -261,6 +270,14 @@ def search(ctx, deep):
                         elif fam == 'frank' and abs(th) >= 690.0 and abs(tau) >= 0.994:
                             cls = 'theta-clamped-at-solver-bound'
                         bad(cls, {'theta': th, 'tau(theta)-tau': err}, f'theoretical tau of theta equals the sample tau (|err| <= {tol})')
+                if math.isfinite(th) and fam in ('clayton', 'gumbel') and admissible and tau > 0:
+                    # closed forms: 1 - tau(theta) is 2/(theta+2), 1/theta, and must equal 1 - tau to rounding
+                    # (a relative statement: an absolute tolerance on tau is blind once 1 - tau is below it)
+                    comp = 1.0 / th if fam == 'gumbel' else 2.0 / (th + 2.0)
+                    rel = abs(comp - (1.0 - tau)) / (1.0 - tau)
+                    if not rel <= 1e-9:
+                        bad('calibration', {'theta': th, '1-tau(theta)': comp, '1-tau': 1.0 - tau, 'relative_error': rel},
+                            'theoretical tau of theta equals the sample tau: 1 - tau(theta) = 1 - tau to 1e-9 relative')
                 if not admissible:
                     cls = 'inadmissible-accepted'
                     if fam == 'frank' and tau == 0:
